@@ -1076,7 +1076,7 @@ def gen_mkdev(rng: random.Random) -> dict:
             if f == "layout_low":
                 p["min_layout_traps"] = 3
                 p["layouts"].append([[0.0, 0.0], [m, 0.0]])
-            elif f == "layout_high":
+            elif f == "layout_high" and F(p["max_layout_filling"]) > 0:
                 p["max_layout_traps"] = max(3, math.ceil((p["max_atom_num"] or 1) / F(p["max_layout_filling"])))
                 nt = p["max_layout_traps"] + 1
                 side = int(math.ceil(math.sqrt(nt)))
